@@ -83,6 +83,14 @@ def run(ctx):
         if c["version"] is not None:
             c["prehistory"] = dict(style="resettings", version=rnd.choice([1, 2, 3, 7]), level=rnd.randrange(4), mask=None, data=b"")
             c["fit"] = False if rnd.random() < 0.5 else c["fit"]
+    for c in cases[1::3]:
+        if c.get("entry") or c.get("prehistory"):
+            continue
+        # the same object compiled other data before (automatic or explicit mask), then clear() + the case's data or the case's
+        # data on top: the choice must be made afresh for the symbol that is produced now (oracle: from that symbol alone)
+        c["prehistory"] = dict(style="recompile", data=gens.payload(rnd, rnd.choice(["lower", "digits", "bytes", "alnum"]), rnd.choice([1, 5, 12, 30])),
+                               clear=rnd.random() < 0.6, render=rnd.random() < 0.5)
+        c["tag"] += "-recompiled"
     if tier != "thorough":
         cases.append(dict(version=40, level=1, mask=None, fit=False, calls=[(gens.payload(rnd, "mixed", 900), 20)], tag="auto"))
     recs = enc.run_cases(cases, jobs=12 if tier == "thorough" else 4)
